@@ -818,6 +818,63 @@ impl Prop for C18 {
                 }
             }
         }
+        // permission fault on a directory removal: a nested directory is emptied by the push, its parent is
+        // read-only for the unprivileged user (rmdir fails with EACCES), nothing else has to change in the parent
+        if n % 2 == 1 && unsafe { libc::geteuid() } == 0 && !exp.hard_error {
+            let end = &ws.states[exp.applied];
+            let dir_of = |p: &str| p.rfind('/').map(|i| p[..i].to_string());
+            let mut cand: Option<(String, String)> = None;
+            for p in ws.spec.tree.files.keys() {
+                let Some(d) = dir_of(p) else { continue };
+                let Some(par) = dir_of(&d) else { continue };
+                let emptied = !end.files.keys().any(|q| q.starts_with(&format!("{}/", d)));
+                let was_there_all_the_time = !ws.spec.tree.files.keys().chain(end.files.keys()).any(|q| q == &d);
+                let parent_quiet = ws.spec.tree.files.iter().filter(|(q, _)| dir_of(q).as_deref() == Some(par.as_str())).all(|(q, f)| end.files.get(q).map_or(false, |g| g.data == f.data && g.mode == f.mode))
+                    && end.files.keys().filter(|q| dir_of(q).as_deref() == Some(par.as_str())).all(|q| ws.spec.tree.files.contains_key(q))
+                    && ws.metas.iter().take(exp.applied + 1).all(|m| m.ops.iter().all(|o| [&o.old_path, &o.new_path, &o.target].iter().all(|x| dir_of(x).as_deref() != Some(par.as_str()))));
+                // no other directory below the parent may be created or removed
+                let siblings_quiet = {
+                    let subs = |t: &ws::Tree| -> BTreeSet<String> { t.files.keys().filter(|q| q.starts_with(&format!("{}/", par))).filter_map(|q| q[par.len() + 1..].find('/').map(|i| q[..par.len() + 1 + i].to_string())).collect() };
+                    let (a, b) = (subs(&ws.spec.tree), subs(end));
+                    a.iter().all(|x| x == &d || b.contains(x)) && b.iter().all(|x| a.contains(x))
+                };
+                if emptied && was_there_all_the_time && parent_quiet && siblings_quiet {
+                    cand = Some((d, par));
+                    break;
+                }
+            }
+            if let Some((d, par)) = cand {
+                cx.label("fault-rmdir-eacces-unprivileged");
+                let base = cx.env.fresh_dir("rod-");
+                let root = base.join("work");
+                ws.spec.materialise(&root);
+                ws::chown_tree(&base, 65534);
+                let _ = std::fs::set_permissions(&base, std::os::unix::fs::PermissionsExt::from_mode(0o777));
+                let ppath = root.join(&par);
+                let _ = std::fs::set_permissions(&ppath, std::os::unix::fs::PermissionsExt::from_mode(0o555));
+                let obs = push(cx, &root, &case.opts, &ws::RunOpts { uid: Some(65534), ..Default::default() });
+                let _ = std::fs::set_permissions(&ppath, std::os::unix::fs::PermissionsExt::from_mode(0o755));
+                ws::rm_rf(&base);
+                if obs.out.exit == Exit::Timeout {
+                    return Verdict::Inconclusive("watchdog".into());
+                }
+                cx.nontrivial = true;
+                cx.sub_hashes.push(fnv(format!("rod|{}", d).as_bytes()));
+                let what = format!("the emptied directory {:?} cannot be removed (its parent is read-only, unprivileged run)", d);
+                match obs.out.exit {
+                    Exit::Code(1) => {}
+                    Exit::Code(0) => return Verdict::Fail(format!("{}: the push reports success (exit 0)", what)),
+                    ref other => return Verdict::Fail(format!("{}: crashed: {:?}; stderr: {}", what, other, ws::lossy(&obs.out.stderr))),
+                }
+                if obs.out.stderr.iter().all(|c| c.is_ascii_whitespace()) {
+                    return Verdict::Fail(format!("{}: exit 1 without any message", what));
+                }
+                let got_applied: Vec<String> = obs.snap.get(&b".pc/applied-patches".to_vec()).map(|e| String::from_utf8_lossy(&e.bytes).lines().map(|s| s.to_string()).collect()).unwrap_or_default();
+                if !got_applied.is_empty() {
+                    return Verdict::Fail(format!("{}: applied-patches gained {:?}", what, got_applied));
+                }
+            }
+        }
         // obstacles: real faults without any hook - a path component that has the wrong type
         {
             let mut obstacles: Vec<(String, String, bool)> = vec![(".pc".into(), ".pc is a regular file".into(), false)];
